@@ -172,7 +172,15 @@ def r3_terminator(prog, rep: Report, fam: Family):
                           scenario="file content 'a\nbb\nccc' (no final newline): the last line reads as 'cc'", line=r.lineno)
                 continue
             while isinstance(e, ast.Call) and isinstance(e.func, ast.Attribute):
-                d = dotted(flow.expand(e.func.value))
+                recv = flow.expand(e.func.value)
+                d = dotted(recv)
+                if isinstance(recv, ast.Call) and isinstance(recv.func, ast.Attribute) and dotted(recv.func.value) == (f.self_name,):
+                    # an accessor of this class that hands out the handle: self.<m>() with every return `self.<handle>`
+                    acc = prog.resolve(c, recv.func.attr)
+                    if acc is not None and acc.self_name is not None:
+                        rs = [dotted(r_.value) for r_ in returns_of(acc.node) if r_.value is not None]
+                        if rs and all(x and len(x) == 2 and x[0] == acc.self_name and x[1] in handles for x in rs):
+                            d = (f.self_name, rs[0][1])
                 if e.func.attr == "readline" and d and len(d) == 2 and d[0] == f.self_name and d[1] in handles:
                     break
                 ops.append(e)
